@@ -284,8 +284,9 @@ class IH5MFRecord(IH5Record):
         # create and finalize the stub (override userblock and create skeleton structure)
         ds = IH5MFRecord._create(Path(record))
         init_stub_base(ds, user_block, skeleton)  # prepares structure and user block
-        # commit_patch() completes stub + fixes the hashsum
-        ds.commit_patch(__is_stub__=True)
+        # commit_patch() completes stub + fixes the hashsum. The extensions of the source
+        # manifest are passed on, so that patches on top of the stub inherit them
+        ds.commit_patch(__is_stub__=True, manifest_exts=manifest.manifest_exts)
         assert not ds._has_writable
 
         return ds
